@@ -39,6 +39,8 @@ var c15fillers = []struct {
 	{"plain text\n", 1}, {"<p>\n  two\n</p>\n", 3}, {"<% let a = 1 %>\n", 1}, {"<%= \"x\" %> and <%= 2 %>\n", 1}, {"<%# a comment %>\n", 1},
 	{"<%= `multi\nline\nstring` %>\n", 3}, {"<% let s2 = \"a\nb\" %>\n", 2}, {"<% let s3 = \"say \\\"hi\\\"\nto \\\"all\\\"\n\" %>\n", 3}, {"<%\n  let b = 2\n%>\n", 3}, {"<%= if (true) { %>\n  yes\n<% } %>\n", 3},
 	{"<%= for (q) in [1,2] { %>\n<%= q %>\n<% } %>\n", 3}, {"\n\n", 2}, {"<% # line comment\n let c = 3 %>\n", 2}, {"\\<%= not a tag %>\n", 1},
+	// only "\n" ends a line: a carriage return, alone or before it, does not
+	{"a\r\nb\r\n", 2}, {"x\ry\n", 1}, {"<% let cr = \"a\r\nb\" %>\r\n", 2}, {"<%\r\n let d = 4\r %>\n", 2},
 }
 
 var c15wraps = []struct{ pre, post string }{
@@ -158,6 +160,17 @@ func init() {
 					tmpl := defs + w.pre + strings.Repeat(in.src, k) + f.src + w.post
 					judge(f.name+"-after-tolerated", tmpl, 1+3+strings.Count(w.pre, "\n")+k*in.lines, f.kind)
 				}
+			}
+		}
+		// the failing part FOLLOWS, in the same tag, a call / block that completed on other lines:
+		// the error belongs to the tag, not to the last statement of what completed
+		after := []string{"<%= ok() + undefinedThing %>", "<% let z = okm() + fail1() %>", "<%= [okm(), xs[99]] %>", "<%= okm() + 1 + \"a\" %>",
+			"<%= blk() { %>\nx\n<%= 1 %>\n<% } + undefinedThing %>", "<%= rec1(okm(), undefinedThing) %>", "<% let z = [ok(), okm()][5] %>"}
+		defs2 := defs + "<% let okm = fn() {\n let q = 1\n return q } %>\n"
+		for _, a := range after {
+			for _, w := range c15wraps {
+				tmpl := defs2 + w.pre + a + w.post
+				judge("after-completed-block", tmpl, 1+3+3+strings.Count(w.pre, "\n"), "exec")
 			}
 		}
 		// errors raised inside a partial carry the outer tag's line first
